@@ -56,6 +56,17 @@ func init() {
 		Real:   []string{"proxy.shardManagerImpl incl. shardDelegate.NotifyMsg/MergeRemoteState/LocalState/NodeMeta and shardEventDelegate.NotifyLeave", "proxy.intraProxyManager (reconcile loop, sendAck, sendReplicationMessages)", "proxy.intraProxyStreamSender/Receiver", "routing-mode stream handler serving intra-proxy streams (streamIntraProxyRouting)"},
 		Stub:   []string{"hashicorp/memberlist: vsim/fakeml (same API subset; delivery of user messages, state merges and membership events are simulator steps; no failure detector)", "intra-proxy gRPC link: vsim/simio streams terminating in the peer instance's real handler (seam in intra_proxy_router.go)", "local cluster streams: harness registers delivery/ack channels and ownership through the ShardManager interface as proxyStreamSender/Receiver do"},
 		Assume: commonAssume})
+	muxReal := []string{"transport/mux: NewGRPCMuxManager, NewMuxEstablisherProvider / NewMuxReceiverProvider (through the net seam), muxProvider, multiMuxManager, registerGRPCServer, yamux observer", "transport/mux/session.ManagedMuxSession", "transport/grpcutil.MultiClientConn and MakeDialOptions", "hashicorp/yamux", "google.golang.org/grpc client and servers", "temporal backoff.ThrottleRetry, x/sync/semaphore"}
+	muxStub := []string{"network: vsim/simnet in-memory connections with refuse / reset / close / partition switches", "peer: harness endpoint speaking real yamux, serving a tagged echo AdminService on every session"}
+	muxAssume := append(append([]string{}, commonAssume...), "yamux and gRPC run goroutines of their own that the simulator does not schedule (it owns the proxy's goroutines, the clock and the network); verdicts are taken at quiescent points on state that does not depend on their internal order")
+	addSpec(&propSpec{ID: "C10", Profiles: []string{"C10"}, Level: "fault_enumeration", Chunk: 1,
+		QuickRuns: 800, ThoroughRuns: 60000, QuickWall: 80 * time.Second, ThoroughWall: 25 * time.Minute,
+		Rule: "one evaluation = one seeded simulated MUX run: establisher or receiver role, pool size 1..4, 0..5 faults (dial refused, connection closed before/after yamux setup, black-holed connection, reset, partition, remote and local session close) and optionally lifetime cancellation at an arbitrary decision; then faults stop, the pool must refill within 3 virtual minutes, then shutdown. distinct = distinct trace fingerprint; non-trivial = a session was established and a fault (or the shutdown) fired",
+		Real: muxReal, Stub: muxStub, Assume: muxAssume})
+	addSpec(&propSpec{ID: "C11", Profiles: []string{"C11"}, Level: "exploration", Chunk: 1,
+		QuickRuns: 500, ThoroughRuns: 40000, QuickWall: 80 * time.Second, ThoroughWall: 25 * time.Minute,
+		Rule: "one evaluation = one seeded simulated MUX run with RPCs through the MultiClientConn: in-flight RPCs during session churn (must end by their deadline), then at quiescent points: 4*N calls over the full pool (all succeed on registered sessions, spread over >= 2), sessions killed one by one (calls fail over to survivors, CanMakeCalls tracks the set, unavailability with none left), a new session appears (calls resume). distinct = distinct trace fingerprint; non-trivial = sessions were established and at least one RPC succeeded",
+		Real: muxReal, Stub: muxStub, Assume: muxAssume})
 	addSpec(&propSpec{ID: "C08", Profiles: []string{"C08", "C04"}, Level: "exploration",
 		QuickRuns: 1500, ThoroughRuns: 150000, QuickWall: 75 * time.Second, ThoroughWall: 20 * time.Minute,
 		Rule: "one evaluation = one seeded simulated ROUTE run with stream churn (successor incarnations opening while predecessors tear down); oracles: no unrecovered panic, functional probes on the newest incarnation, empty registries and no live task after all streams ended",
